@@ -155,15 +155,18 @@ def build_http_config(rng, keyname="rsa1024_a", hostile=False, extras=True, allo
     for _ in range(ndom):
         # RFC 3986 path characters beyond letters/digits appear in real profiles (e.g. "/jquery-3.3.1.min.js", "/search;type=web")
         seg_alpha = TOKEN if rng.random() < 0.7 else TOKEN + b";:@=$!*.~"
-        uris.append("/" + "/".join(_text(rng, rng.randrange(1, 9), seg_alpha).decode() for _ in range(rng.randrange(1, 3))) + rng.choice(["", ".js", ".gif", ".php", ";v=1", "/"]))
-    # a URI ending in an empty ';' parameter is normalised away by urljoin in the client: not a configuration we generate
-    uris = [u + "1" if u.endswith(";") else u for u in uris]
-    # '.' and '..' path segments are removed by URL normalisation in the client (urljoin/httpx)
+        uris.append("/" + "/".join(_text(rng, rng.randrange(1, 9), seg_alpha).decode() for _ in range(rng.randrange(1, 3))) + rng.choice(["", ".js", ".gif", ".php", ";v=1", "/", ";"]))
+    # '.' and '..' path segments are removed by URL normalisation in the client (httpx)
     uris = ["/".join("d" + seg if seg in (".", "..") or seg.startswith(("./", "../")) else seg for seg in u.split("/")) for u in uris]
+    if allow_uri and rng.random() < 0.12:
+        # an empty first path segment: a path, not a network-path reference ("//cdn/pixel.gif" is requested from the C2 host)
+        uris = ["/" + u for u in uris]
     if rng.random() < 0.3:
         uris = [uris[0]] * ndom
     m["uris"] = uris
     m["submit_uri"] = "/" + _text(rng, rng.randrange(2, 10)).decode() + rng.choice([".php", "", "/submit", ";jsessionid=1", ".php;x", "/"])
+    if allow_uri and rng.random() < 0.1:
+        m["submit_uri"] = "/" + m["submit_uri"]
     while any(m["submit_uri"].startswith(u) or u.startswith(m["submit_uri"]) for u in uris):
         m["submit_uri"] = "/" + _text(rng, rng.randrange(4, 12)).decode() + "S"
     ua = "Mozilla/5.0 (Windows NT 10.0; Win64; x64) " + _text(rng, rng.randrange(0, 60), b"abcdefghijklmnopqrstuvwxyz /.;()0123456789").decode()
